@@ -155,16 +155,20 @@ MethName(m) == IF m = "mut" THEN "get_mut" ELSE "get"
 \* the expression that yields the stashed handle again
 PlaceGet(p) == CASE p = "global" -> "sg@@" [] p = "closure" -> "(sc@@)" [] p = "list" -> "(cadr sl@@)"
                  [] p = "box" -> "(unbox sb@@)" [] p = "hash" -> "(hash-ref sh@@ 'k)"
-\* the unit that stashes the value of expression x (for "cont" and "host": together with the use `u`)
+\* the units that stash the value of expression x (for "cont" and "host": together with the use `u`).
+\* "cont": the continuation k is captured inside (wk r) while r is live; re-entering k runs the
+\* use again and then escapes to the caller through bk (the continuation of the LATER run).
 PlacePut(p, x, u) ==
-  CASE p = "global" -> "(define sg@@ " \o x \o ")"
-    [] p = "closure" -> "(define sc@@ (let ((x " \o x \o ")) (lambda () x)))"
-    [] p = "list" -> "(define sl@@ (list 1 " \o x \o "))"
-    [] p = "box" -> "(define sb@@ (box " \o x \o "))"
-    [] p = "hash" -> "(define sh@@ (hash 'k " \o x \o "))"
-    [] p = "cont" -> "(define sk@@ #f) (define (wk@@ r) (let ((x (call/cc (lambda (k) (set! sk@@ k) 1)))) (emit ("
-                     \o u \o " r)) x)) (wk@@ " \o x \o ")"
-    [] p = "host" -> "(define (uk@@ r) (emit (" \o u \o " r))) (host-keep! " \o x \o ")"
+  CASE p = "global" -> <<"(define sg@@ " \o x \o ")">>
+    [] p = "closure" -> <<"(define sc@@ (let ((x " \o x \o ")) (lambda () x)))">>
+    [] p = "list" -> <<"(define sl@@ (list 1 " \o x \o "))">>
+    [] p = "box" -> <<"(define sb@@ (box " \o x \o "))">>
+    [] p = "hash" -> <<"(define sh@@ (hash 'k " \o x \o "))">>
+    [] p = "cont" -> <<"(define sk@@ #f)", "(define bk@@ #f)",
+                       "(define (wk@@ r) (let ((x (call/cc (lambda (k) (set! sk@@ k) 1)))) (emit (" \o u \o " r)) (if bk@@ (bk@@ x) x)))",
+                       "(wk@@ " \o x \o ")">>
+    [] p = "host" -> <<"(define (uk@@ r) (emit (" \o u \o " r)))", "(host-keep! " \o x \o ")">>
+ContUse == "(call/cc (lambda (ret) (set! bk@@ ret) (sk@@ 2)))"
 
 -----------------------------------------------------------------------------
 (* The oracle *)
@@ -319,7 +323,7 @@ Flat(ss) == IF ss = << >> THEN << >> ELSE Head(ss) \o Flat(Tail(ss))
 StashRec(e, p) ==
   LET h == stash[p].h
       m == stash[p].m IN
-    IF p = "cont" THEN SStepRec(e, "(sk@@ 2)", UseOK(h, m), UseEmit(h, m), UseAcc(h, m))
+    IF p = "cont" THEN SStepRec(e, ContUse, UseOK(h, m), UseEmit(h, m), UseAcc(h, m))
     ELSE IF p = "host"
       THEN [h |-> "call", eng |-> e, fn |-> "uk@@", kept |-> 0, src |-> "#host call uk@@ kept0",
             class |-> (IF UseOK(h, m) THEN "ok" ELSE "err"), emit |-> UseEmit(h, m), acc |-> UseAcc(h, m)]
@@ -376,7 +380,8 @@ Observe ==
        /\ pend' = 0
        /\ UNCHANGED <<G, ng, cs, entered, stash, child, acts, mem, weak, ibind, nd, blame, feat, done>>
        \* the uses see the state AFTER copy and set (hist' is determined last)
-       /\ hist' = hist \o pre \o Flat([x \in 1..Engines |-> IF EngFree(x) THEN Uses(x)' ELSE << >>])
+       /\ hist' = IF EmitCases THEN hist \o pre \o Flat([x \in 1..Engines |-> IF EngFree(x) THEN Uses(x)' ELSE << >>])
+                  ELSE hist
 
 \* keep a valid handle somewhere ("cont" also uses it once, now)
 SStash(e, p, h) ==
@@ -384,8 +389,12 @@ SStash(e, p, h) ==
   /\ LET m == ModeOf(h)
          u == IF IsChild(h) THEN IGetter(m) ELSE Getter(m)
          usesnow == p = "cont" IN
-       /\ hist' = Append(hist, SStepRec(e, PlacePut(p, HExpr(h), u), (~usesnow) \/ UseOK(h, m),
-                                        IF usesnow THEN UseEmit(h, m) ELSE << >>, IF usesnow THEN UseAcc(h, m) ELSE << >>))
+       /\ LET units == PlacePut(p, HExpr(h), u)
+              n == Len(units) IN
+            \* all units but the last are definitions; the last one of "cont" uses the handle
+            hist' = hist \o [i \in 1..n |->
+                       IF i = n /\ usesnow THEN SStepRec(e, units[i], UseOK(h, m), UseEmit(h, m), UseAcc(h, m))
+                       ELSE SStepRec(e, units[i], TRUE, << >>, << >>)]
        /\ stash' = [stash EXCEPT ![p] = [h |-> h, eng |-> e, m |-> m]]
   /\ acts' = acts + 1 /\ pend' = -1
   /\ feat' = feat \cup {"stash-" \o p} \cup (IF IsChild(h) THEN {"stash-child"} ELSE {})
@@ -457,6 +466,9 @@ Join(order, set, i) == IF i > Len(order) THEN ""
 Tag == "nursery|blame=" \o Join(BlameOrder, blame, 1) \o ",|feat=" \o Join(FeatOrder, feat, 1) \o ","
 
 Emit == (EmitCases /\ done) => PrintT(<<"REPLAY", ToJson([tag |-> Tag, steps |-> hist])>>)
+
+\* design-level runs (EmitCases = FALSE) identify states that differ only in the rendered history
+DesignView == <<G, ng, cs, entered, stash, child, acts, pend, mem, weak, ibind, nd, done>>
 
 TypeOK == /\ ng \in 0..MaxGuards /\ acts \in 0..MaxActs /\ Len(cs) <= 2
           /\ \A g \in GuardIds : G[g].st \in {"none", "open", "active", "closed"}
